@@ -27,6 +27,7 @@ TInit(cfg) ==
    started |-> [i \in 1..Len(cfg.conns) |-> 0],
    running |-> [i \in 1..Len(cfg.conns) |-> FALSE],
    ended   |-> [i \in 1..Len(cfg.conns) |-> 0],
+   files   |-> [i \in 1..Len(cfg.conns) |-> {}],
    decided |-> [i \in 1..Len(cfg.conns) |-> FALSE],
    hard |-> [i \in 1..Len(cfg.conns) |-> FALSE],        \* a send on this connection failed with an error reported to the caller
    hardWire |-> [i \in 1..Len(cfg.conns) |-> -1],       \* ... and this many bytes had been sent by then
@@ -87,8 +88,12 @@ EndConn(s, e, cn) ==
   \cup Cl(~(quiet /\ fc # 0 /\ F[fc].complete /\ s.cfg.infinite) \/ cn.closed, "P11_closing_response_is_followed_by_close")
   \* ---- C09 (concurrent part): at rest, every application iterable that was started has been closed
   \cup Cl(~quiet \/ s.ended[i] = s.started[i], "P09_every_started_iterable_is_closed")
+  \* (a file handed to wsgi.file_wrapper: the application's call has ended, the file is the server's to close)
+  \cup Cl(~quiet \/ s.files[i] = {}, "P09_every_started_iterable_is_closed")
   \* ---- C12
-  \cup Cl(cn.maxpending <= s.cfg.hwm + cn.maxwrite, "P12_pending_output_bounded_by_watermark_plus_one_write")
+  \* (the interim responses the server itself inserts are not output accepted from an application: 25 bytes each)
+  \cup Cl(cn.maxpending <= s.cfg.hwm + cn.maxwrite + 25 * Cardinality({j \in 1..Len(reqs) : reqs[j].expect}),
+         "P12_pending_output_bounded_by_watermark_plus_one_write")
   \cup Cl(~quiet \/ cn.waiting = 0, "P12_paused_producer_released")
   \* ---- C13
   \cup Cl(~cn.closed \/ (cn.nclose = 1 /\ ~cn.in_map), "P13_torn_down_exactly_once")
@@ -120,6 +125,7 @@ TFailAll(s, e) ==
     [] e.k = "app_end" ->
          LET i == ConnIdx(e.c) IN
          IF i = 0 \/ i > Len(s.cfg.conns) THEN {} ELSE Cl(s.running[i] /\ e.r = s.started[i], "P09_iterable_closed_exactly_once")
+    \* (closing a file twice is harmless - handle_close may run twice in one handle_write: not constrained)
     [] e.k = "torn" ->
          LET i == ConnIdx(e.c) IN
          (IF i = 0 THEN Cl(~(e.c \in {"L", "T"}), "P13_listener_and_trigger_survive")
@@ -141,6 +147,10 @@ TUpd(s, e) ==
          [s EXCEPT !.started[ConnIdx(e.c)] = @ + 1, !.running[ConnIdx(e.c)] = TRUE]
     [] e.k = "app_end" /\ ConnIdx(e.c) \in 1..Len(s.cfg.conns) ->
          [s EXCEPT !.running[ConnIdx(e.c)] = FALSE, !.ended[ConnIdx(e.c)] = @ + 1]
+    [] e.k = "file_open" /\ ConnIdx(e.c) \in 1..Len(s.cfg.conns) ->
+         [s EXCEPT !.files[ConnIdx(e.c)] = @ \cup {e.r}]
+    [] e.k = "file_closed" /\ ConnIdx(e.c) \in 1..Len(s.cfg.conns) ->
+         [s EXCEPT !.files[ConnIdx(e.c)] = @ \ {e.r}]
     [] e.k = "flag" /\ ConnIdx(e.c) \in 1..Len(s.cfg.conns) ->
          [s EXCEPT !.decided[ConnIdx(e.c)] = TRUE]
     \* a send error reported to the caller is a client fault: from here on the connection is to be closed (C11)
